@@ -34,25 +34,35 @@ Oracles
              Voigt modulus; pinned by Tests/Test_Functions/test_rheology.py for the frequency limits, the mu -> 0
              limit of the law for the modulus guard), compared exactly.
   consistent scalar call == vectorize_frequency == vectorize_modulus_viscosity element-wise, bit for bit, for every
-             thread count; every alias of find_rheology returns the class; default-constructed instance == explicit
+             thread count, and 25 repetitions of the array call under the same team reproduce it bit for bit; every alias of find_rheology returns the class; default-constructed instance == explicit
              default arguments; instance after change_args(B) == fresh instance(B), bit for bit.
   legacy     |1/J_legacy - M| <= 1e-12 |M| with voigt_compliance_offset = 1/voigt_modulus_scale, for w > 0 in the
              physical range and outside the legacy functions' own float_eps guards (|eta w| <= 2.2e-16 or
              |J eta w zeta| <= 2.2e-16, where they substitute 1e-100 on purpose; the size of that excluded region is
              reported under the label `legacy:guard_excluded`).
 
-Tolerances: law 1e-13 relative - worst deviation seen on 2 x 10^5 generated points of the unchanged tree 1.1e-15
-  (legacy 1.3e-15 -> 1e-12); a wrong coefficient / dropped term changes M by >= 1e-4 relative somewhere in the
-  w tau window, usually by O(1).
+Tolerances: law 1e-13 relative - worst deviation on 32 000 generated in-range points of the unchanged tree: 6.7e-16
+  (Sundberg-Cooper; Andrade 4.6e-16, Burgers 5.3e-16, Maxwell 3.5e-16), i.e. 150x margin; legacy 1e-12 (worst 9.2e-16);
+  |M|/mu - 1 <= 4.4e-16 seen, bound 1e-12; smallest Re M/|M| seen 1e-26 and still positive (no cancellation in the sign).
+  A wrong coefficient / dropped term changes M by >= 1e-4 relative somewhere in the w tau window, usually by O(1).
 
-Sensitivity (tools/mut.py on the generated C, `-- --cases 4000 --shards 4`; all CAUGHT): see bottom of this docstring
-  models.c  Sundberg: drop `/ voigt_modulus_scale`                       law SundbergCooper (+legacy)
-  models.c  Burgers voigt_param imaginary part -1.0 -> +1.0               law Burgers
-  models.c  Andrade alpha_factorial tgamma(alpha + 1.) -> tgamma(alpha)   law Andrade
-  models.c  Maxwell guard returns (modulus,0) for w < MIN_FREQUENCY       extreme Maxwell
-  models.c  SundbergCooper.change_args does not update zeta               consistent/change_args
-  base.c    _vectorize_frequency writes output_ptr[i] from frequency_ptr[0]   consistent/vectorize_frequency
-  models.c  find_rheology 'viscous' -> Maxwell                            consistent/lookup
+Sensitivity (tools/mut.py on the generated C, `-- --cases 4000 --shards 4`, 9-25 s each)
+  models.c  Sundberg: `/ voigt_modulus_scale` dropped                          CAUGHT law + highfreq SundbergCooper
+  models.c  Burgers voigt_param imaginary part -1.0 -> +1.0                     CAUGHT law + bounded Burgers
+  models.c  Andrade alpha_factorial tgamma(alpha + 1.) -> tgamma(alpha)         CAUGHT law + highfreq Andrade
+  models.c  Andrade alpha_factorial only set when still 0 (missing update)      CAUGHT consistent/change_args only
+  models.c  first zero-frequency guard returns (0,1) instead of (0,0) (Newton)  CAUGHT extreme zero/tiny frequency
+  models.c  find_rheology: alias 'viscous' compared with 'maxwell'              CAUGHT consistent/lookup (+AttributeError)
+  base.c    _vectorize_frequency reads frequency_ptr[0] for every i             CAUGHT consistent/vectorize_frequency
+  base.c    _vectorize_modulus_viscosity reads viscosity_ptr[i-1]               CAUGHT consistent/vectorize_modulus_viscosity
+  base.c    prange body: index kept in a shared (static volatile) variable      CAUGHT consistent/vectorize_frequency, only in
+            across the model call (data race, window = one model evaluation)    cases with >= 2 threads (4..128 elements wrong)
+  compliance_models.py  voigt imag_j: voigt_comp**2 -> voigt_comp               CAUGHT legacy Voigt/Burgers/Sundberg (py_func + jitted)
+  base.c    frequency passed through a shared static volatile written and read    MISSED by one call per case; CAUGHT since every
+            back in the next instruction (race window ~1 ns)                    array case repeats the call 25x under the same team
+                                                                                (consistent/vectorize_not_reproducible, 1..25 of 25)
+  MISSED (stated, not hidden): base.c `firstprivate/lastprivate(i)` clause removed - gcc -O3 keeps i in a register, the
+  recompiled binary behaves identically (equivalent mutant at the machine level).
 """
 import ctypes
 import json
@@ -67,6 +77,12 @@ from hypothesis import strategies as st
 from oracles import rheology_mp as R
 from vlib import env
 from vlib.result import Collector, repo_call
+
+# libgomp reads these when it is loaded (first import of a TidalPy extension, which happens lazily in _mods()):
+# without them the 2..16 team threads of every array case busy-wait at the barrier (measured: 15 CPU-minutes per
+# quick run on a loaded machine, 2 with them) and disturb the other shards.
+os.environ.setdefault('OMP_WAIT_POLICY', 'PASSIVE')
+os.environ.setdefault('GOMP_SPINCOUNT', '0')
 
 ID = 'C07'
 TECHNIQUE = ('property-based testing (Hypothesis) against the published compliance laws evaluated in mpmath (50 digits); '
@@ -88,6 +104,7 @@ LAW_TOL = 1e-13
 LEGACY_TOL = 1e-12
 BOUND_TOL = 1e-12
 FLOAT_EPS = float(np.finfo(np.float64).eps)
+ARRAY_REPEATS = 25
 
 RULE = ('Hypothesis draws four 64-bit words per case, decoded into: model (7), w in 10^[-12,2] (or a guard edge / out-of-range '
         'value), mu in 10^[3,13], eta in 10^[0,30] (half of the cases tied to w tau in 10^[-2,2]), alpha in (0.02,0.98), zeta in '
@@ -607,12 +624,23 @@ def _evaluate_array(case):
     out = np.full(n, complex(math.nan, math.nan), dtype=np.complex128)
     try:
         got_k = _set_threads(k)
+        unstable = 0
         with repo_call(model + '.vectorize_' + which):
             if which == 'frequency':
                 inst.vectorize_frequency(wv, mu0, eta0, out)
             else:
                 inst.vectorize_modulus_viscosity(w0, muv, etav, out)
-        nthreads = _os_threads()
+            nthreads = _os_threads()
+            # repeat under the same team size: every repetition must reproduce the first result bit for bit
+            rep = np.empty_like(out)
+            for _ in range(ARRAY_REPEATS if k > 1 else 1):
+                rep.fill(complex(math.nan, math.nan))
+                if which == 'frequency':
+                    inst.vectorize_frequency(wv, mu0, eta0, rep)
+                else:
+                    inst.vectorize_modulus_viscosity(w0, muv, etav, rep)
+                if rep.tobytes() != out.tobytes():
+                    unstable += 1
     finally:
         _set_threads(1)
     if got_k == k and (k == 1 or nthreads >= k):
@@ -620,6 +648,8 @@ def _evaluate_array(case):
     else:
         c.fail({'clause': 'harness', 'what': 'thread_count_not_in_effect'},
                'asked for %d OpenMP threads, omp_get_max_threads=%r, OS threads=%r' % (k, got_k, nthreads))
+    c.check(unstable == 0, {'model': model, 'clause': 'consistent', 'what': 'vectorize_not_reproducible'},
+            '%s.vectorize_%s with %d threads, n=%d: %d of %d repetitions differ from the first call' % (model, which, k, n, unstable, ARRAY_REPEATS))
     # scalar reference, element by element
     bad = []
     with repo_call(model + '.__call__'):
